@@ -6,6 +6,8 @@
  *
  * Cases (decimal numbers, `|` separates groups):
  *   M n1 .. nk                 object_arr_dim_mult                 -> M elems m1 .. mk
+ *   F n1 .. nk                 object_arr_dim_fits (fix 1f9996a)   -> F 0|1   (F ? when the tree
+ *                              has no such function: the symbol is weak, the driver still links)
  *   A n1 .. nk | i1 .. ik      object_arr_dim_mult, then
  *                              object_arr_dim_addr (i as unsigned) -> A addr oob
  *   D n1 m1 .. nk mk | i1..ik  object_arr_dim_addr on a given dv   -> D addr oob
@@ -28,6 +30,9 @@
 #include "exctab.h"
 
 #define MAXTOK 4096
+
+/* since fix 1f9996a; weak so that the driver links against a tree without it */
+extern char object_arr_dim_fits(unsigned int dims, object_arr_dim * dv) __attribute__((weak));
 
 static char * toks[MAXTOK];
 static int ntok;
@@ -86,6 +91,15 @@ int main(int argc, char ** argv)
             printf("M %u", elems);
             for (d = 0; d < dims; d++) printf(" %u", dv[d].mult);
             printf("\n");
+            object_arr_dim_delete(dv);
+        }
+        else if (!strcmp(c, "F"))
+        {
+            unsigned int dims = ntok - 1, d;
+            object_arr_dim * dv = object_arr_dim_new(dims ? dims : 1);
+            for (d = 0; d < dims; d++) { dv[d].elems = u(toks[1 + d]); dv[d].mult = 0; }
+            if (object_arr_dim_fits) printf("F %d\n", object_arr_dim_fits(dims, dv) ? 1 : 0);
+            else printf("F ?\n");
             object_arr_dim_delete(dv);
         }
         else if (!strcmp(c, "A") || !strcmp(c, "D"))
